@@ -104,6 +104,12 @@ pub struct Variant {
     /// compared after mapping the root back (the location of a checkout is not part of the sources)
     #[serde(default)]
     pub root: Option<String>,
+    /// the simulated process has compiled earlier revisions of some files before: per round a
+    /// list of (file, content) that is written, pushed through update_file_content and built;
+    /// afterwards the files get their real contents back (and are pushed again) and the
+    /// compared build runs.  Output depends on the project contents, not on what came before.
+    #[serde(default)]
+    pub earlier: Vec<Vec<(String, String)>>,
 }
 
 #[derive(Serialize, Deserialize, Clone, Debug, PartialEq, Eq, Default)]
